@@ -560,6 +560,17 @@ def check(pid, tier, seed, replay=None):
     with open(os.path.join(ROOT, 'evidence/%s.json' % pid), 'w') as f:
         json.dump(ev, f, indent=1)
 
+    if replay:
+        # --replay: same seed and tier as the recorded run; report whether the recorded failure recurs
+        rec = json.load(open(replay if os.path.isabs(replay) else os.path.join(ROOT, replay)))
+        first = rec.get('first') or {}
+        again = [l for l in (corr['propfail'] if corr else []) if (not first) or
+                 (parse_kv(l).get('case') == first.get('case') and parse_kv(l).get('clause') == first.get('clause'))]
+        if rec.get('kind') == 'propfail':
+            print('REPLAY %s: case=%s clause=%s %s' % (replay, first.get('case'), first.get('clause'),
+                  'REPRODUCED: ' + again[0][:300] if again else 'not reproduced on the current tree'))
+        else:
+            print('REPLAY %s (%s): %s' % (replay, rec.get('kind'), 'still failing' if violations else 'no longer failing'))
     for l in known_lines:
         print(l)
     st = (corr or {}).get('stats', {})
